@@ -101,7 +101,7 @@ Proof.
   - intros _. split.
     + split; [apply bytes_in_zero|]. unfold bm_zero_bits. rewrite popsum_zero. reflexivity.
     + apply sorted_ext; [apply sorted_bits_values|constructor|]. intro x. rewrite in_bits_values.
-      unfold bm_zero_bits. rewrite bit_of_zero. split; [intros [_ H]; discriminate|intros []].
+      unfold bm_zero_bits. rewrite bit_of_zero. split; [intros [_ H]; discriminate H|intros []].
   - intros (_ & _ & Hcap). split; [|reflexivity]. unfold runs_inv. cbn. repeat split; lia.
 Qed.
 
@@ -131,10 +131,10 @@ Proof.
   destruct (bit_of m v) eqn:B; cbn [negb fst snd].
   - split; [|split; [exact Hx|]].
     + unfold bm_Inv. cbn [bm_c bm_card]. split; [apply bits_set_bytes; exact Hb|lia].
-    + split; [discriminate|]. intro H. exfalso. apply H. apply (proj2 Hin). reflexivity.
+    + split; [intro Hd; discriminate Hd|]. intro H. exfalso. apply H. apply (proj2 Hin). reflexivity.
   - split; [|split; [exact Hx|]].
     + unfold bm_Inv. cbn [bm_c bm_card]. split; [apply bits_set_bytes; exact Hb|]. rewrite u32_small by lia. lia.
-    + split; [intros _ H; apply (proj1 Hin) in H; discriminate|reflexivity].
+    + split; [intros _ H; apply (proj1 Hin) in H; discriminate H|reflexivity].
 Qed.
 
 Lemma add_array_spec card R cap v : arr_ok card R cap -> v < 65536 ->
@@ -153,7 +153,7 @@ Proof.
     + unfold bm_Inv. cbn [bm_c bm_card]. repeat split; assumption.
     + intro x. unfold bm_abs, bm_iter_all. cbn [bm_c]. rewrite arr_values_rev. split; [tauto|].
       intros [->|H]; [apply (proj1 F); lia|exact H].
-    + split; [discriminate|]. intro H. exfalso. apply H. apply (proj1 F). lia.
+    + split; [intro Hd; discriminate Hd|]. intro H. exfalso. apply H. apply (proj1 F). lia.
   - assert (Hnot : ~ In v (rev R)) by (intro H; apply (proj2 F) in H; lia).
     destruct P as [_ P2]. assert (Hr : (r < 0)%Z) by lia. specialize (P2 Hr). cbv zeta in P2.
     destruct P2 as (Pp & PL & PR). set (p := Z.to_nat (- (r + 1))) in *.
